@@ -148,6 +148,7 @@ func runCounter(r *hx.Run, rng *hx.Rng) string {
 			wg.Add(1)
 			go func() {
 				defer wg.Done()
+				defer catchPanic()
 				for i := 0; i < per; i++ {
 					mode := 0
 					if x := grng.Intn(100); x >= 70 {
@@ -198,6 +199,7 @@ func runCounter(r *hx.Run, rng *hx.Rng) string {
 			rwg.Add(1)
 			go func() {
 				defer rwg.Done()
+				defer catchPanic()
 				var local []obs
 				for n := 0; !stop.Load() && n < 20000; n++ {
 					lo := done.Load()
@@ -326,6 +328,7 @@ func runMixed(r *hx.Run, rng *hx.Rng) string {
 			wg.Add(1)
 			go func() {
 				defer wg.Done()
+				defer catchPanic()
 				for i := 0; i < per; i++ {
 					uniq := gid<<40 | uint64(phase)<<16 | uint64(i+1)
 					inv := clock.Add(1)
@@ -370,6 +373,7 @@ func runMixed(r *hx.Run, rng *hx.Rng) string {
 			rwg.Add(1)
 			go func() {
 				defer rwg.Done()
+				defer catchPanic()
 				var local []obs
 				for n := 0; !stop.Load() && n < 2000; n++ {
 					inv := clock.Add(1)
@@ -547,6 +551,7 @@ func runWide(r *hx.Run, rng *hx.Rng) string {
 	wg.Add(1)
 	go func() {
 		defer wg.Done()
+		defer catchPanic()
 		for i := uint64(0); i < n; i++ {
 			tv.Compute(func(cur wide, ex bool) (wide, error) {
 				if !ex {
@@ -561,6 +566,7 @@ func runWide(r *hx.Run, rng *hx.Rng) string {
 		rwg.Add(1)
 		go func() {
 			defer rwg.Done()
+			defer catchPanic()
 			var local []uint64
 			var localTorn []string
 			last := uint64(0)
@@ -718,9 +724,12 @@ func runGate(r *hx.Run, rng *hx.Rng) string {
 	// the parked writer
 	parkedSeen, parkedCompute := uint64(0), rng.Bool()
 	gs.armed.Store(true)
+	parkedDone := make(chan struct{})
 	wg.Add(1)
 	go func() {
 		defer wg.Done()
+		defer close(parkedDone)
+		defer catchPanic()
 		var err error
 		if parkedCompute {
 			_, err = tv.Compute(func(cur uint64, ex bool) (uint64, error) {
@@ -739,6 +748,10 @@ func runGate(r *hx.Run, rng *hx.Rng) string {
 	}()
 	select {
 	case <-gs.entered:
+	case <-parkedDone:
+		close(gs.release)
+
+		return bad("the parked writer returned without reaching the store")
 	case <-time.After(10 * time.Second):
 		close(gs.release)
 
@@ -770,6 +783,7 @@ func runGate(r *hx.Run, rng *hx.Rng) string {
 		wg.Add(1)
 		go func() {
 			defer wg.Done()
+			defer catchPanic()
 			var err error
 			switch o.kind {
 			case 0:
@@ -955,9 +969,12 @@ func runRGate(r *hx.Run, rng *hx.Rng) string {
 	}
 	var wg sync.WaitGroup
 	var failures atomic.Int64
+	readerDone := make(chan struct{})
 	wg.Add(1)
 	go func() {
 		defer wg.Done()
+		defer close(readerDone)
+		defer catchPanic()
 		if readerGet {
 			v, err := tv.Get()
 			switch {
@@ -980,6 +997,10 @@ func runRGate(r *hx.Run, rng *hx.Rng) string {
 	}()
 	select {
 	case <-ps.entered:
+	case <-readerDone:
+		close(ps.release)
+
+		return bad("the reader returned without asking the store although its cache was cold")
 	case <-time.After(10 * time.Second):
 		close(ps.release)
 
@@ -1002,6 +1023,7 @@ func runRGate(r *hx.Run, rng *hx.Rng) string {
 		wg.Add(1)
 		go func() {
 			defer wg.Done()
+			defer catchPanic()
 			var err error
 			switch o.kind {
 			case 0:
@@ -1068,7 +1090,36 @@ func runRGate(r *hx.Run, rng *hx.Rng) string {
 	return fmt.Sprintf("conc rgate %d %d %s %s %s %d %d", init, final, csv(ks), csv(ws), csv(ss), gv, qhn)
 }
 
+// A panic inside the code under test on one of the stress goroutines must become a finding, not the end of the
+// harness process: every goroutine defers catchPanic, runConc reports what was caught.
+var (
+	panicMu  sync.Mutex
+	panicLog []string
+)
+
+func catchPanic() {
+	if p := recover(); p != nil {
+		panicMu.Lock()
+		panicLog = append(panicLog, fmt.Sprint(p))
+		panicMu.Unlock()
+	}
+}
+
 func runConc(r *hx.Run, kind string, rng *hx.Rng) string {
+	line := runConcKind(r, kind, rng)
+	panicMu.Lock()
+	caught := panicLog
+	panicLog = nil
+	panicMu.Unlock()
+	if len(caught) > 0 {
+		r.Fail("no-panic", fmt.Sprintf("conc %s: %d call(s) panicked on a stress goroutine, first: %s", kind, len(caught), caught[0]),
+			map[string]string{"oracle": "panic", "api": "TypedValue", "part": kind})
+	}
+
+	return line
+}
+
+func runConcKind(r *hx.Run, kind string, rng *hx.Rng) string {
 	if kind == "rgate" {
 		return runRGate(r, rng)
 	}
@@ -1087,6 +1138,7 @@ func runConc(r *hx.Run, kind string, rng *hx.Rng) string {
 
 func concPart(r *hx.Run) {
 	nc, nm, nwide, ngate, nrgate := 200*r.Scale, 120*r.Scale, 8*r.Scale, 300*r.Scale, 300*r.Scale
+	slow := map[string]int{}
 	for i := 0; i < nc+nm+nwide+ngate+nrgate; i++ {
 		rng, sub := r.Rng.Fork()
 		r.Case(sub)
@@ -1103,7 +1155,17 @@ func concPart(r *hx.Run) {
 		if i >= nc+nm+nwide+ngate {
 			kind = "rgate"
 		}
+		if slow[kind] >= 3 {
+			// three rounds of this kind ran into a watchdog: the finding is recorded, do not spend the time limit on more
+			r.Count("conc:skipped-after-watchdogs." + kind)
+
+			continue
+		}
+		t0 := time.Now()
 		line := runConc(r, kind, rng)
+		if time.Since(t0) > 9*time.Second {
+			slow[kind]++
+		}
 		r.Line(line, "accept")
 		r.Count("op:conc." + kind)
 		if i < 2 || i == nc || i == nc+nm+nwide+ngate {
